@@ -62,3 +62,28 @@ def schedules(r: TlcResult):
     if not cfgs:
         raise MachineryError("no CFGS line in TLC output: " + r.out[-1500:])
     return cfgs, out
+
+
+# ---- configurations chosen by the harness, handed to TLC as TLA+ text ----
+def tla_val(v) -> str:
+    if isinstance(v, bool):
+        return "TRUE" if v else "FALSE"
+    if isinstance(v, int):
+        return str(v)
+    if isinstance(v, str):
+        return '"%s"' % v
+    if isinstance(v, (list, tuple)):
+        return "<<" + ", ".join(tla_val(x) for x in v) + ">>"
+    if isinstance(v, dict):
+        return "[" + ", ".join(f"{k} |-> {tla_val(x)}" for k, x in v.items()) + "]"
+    raise TypeError(v)
+
+
+def cfg_tla(over: dict) -> str:
+    if not over:
+        return "DefaultCfg"
+    return "[DefaultCfg EXCEPT " + ", ".join(f"!.{k} = {tla_val(v)}" for k, v in over.items()) + "]"
+
+
+def cfgs_tla(overs: list[dict]) -> str:
+    return "Numbered({" + ",\n  ".join(cfg_tla(o) for o in overs) + "})"
